@@ -1330,6 +1330,13 @@ pub fn check_c13_sim(rep: &mut Report) {
         let st = explore(&x, &[vec![]]);
         rep.phase(&format!("simulated TCP task, cap={cap} N={n:?} handles={handles}"), st, json!({"cfg": cfg, "depth": depth}));
     }
+    // a retry strategy that answers "no delay" (min = max = 0): judged without the reference model,
+    // by the sentence of the property itself - a wait state after every failed connect and after
+    // every lost connection, i.e. never `Connecting` directly after `Connecting` or `Connected`
+    {
+        let st = c13_zero_delay_phase();
+        rep.phase("simulated TCP task, retry delay 0: a wait state between any two attempts", st, json!({"scripts": 6}));
+    }
     // ties: a handle call (enable, disable, shutdown, drop, request) queued in the very poll in which
     // the retry wait ends, the connection attempt resolves or the connection is lost: either order is
     // a legal path of the state machine, nothing else is (and no call may be lost)
@@ -1565,6 +1572,73 @@ pub fn check_c14(tier: &str) -> i32 {
     }
     rep.assumptions.push("(min,max) with min > max is outside the property (min and 'capped at max' contradict each other)".into());
     rep.finish()
+}
+
+/// retry delay 0, judged without the reference model (see check_c13)
+pub fn c13_zero_delay_phase() -> Stats {
+    parallel(6, |i, st| {
+        let script: &[&str] = [
+            &["fail", "fail", "fail"][..],
+            &["ok", "eof", "fail", "ok", "eof"][..],
+            &["fail", "ok", "reset", "fail"][..],
+            &["ok", "eof", "ok", "eof"][..],
+            &["fail", "fail", "ok", "eof", "fail"][..],
+            &["ok", "reset", "fail", "fail"][..],
+        ][i];
+        let tcfg = ClientTaskCfg { queue: 4, max_timeouts: None, retry_min_ms: 0, retry_max_ms: 0, decode: decode_level((0, 0, 0)), handles: 1 };
+        let describe = || ("client-zero-delay".to_string(), format!("script {script:?}"), json!({"kind": "c13-zero-delay", "script": script}));
+        let states: Vec<String> = crate::sim::watchdog::guard(&describe, || {
+            let mut h = ClientTaskHarness::new(&tcfg);
+            let ch = h.handles[0].as_ref().unwrap().clone();
+            let mut t = Task::new(async move {
+                let _ = ch.enable().await;
+            });
+            let _ = crate::sim::run_until_quiescent(&mut [&mut t, &mut h.task], 100_000);
+            for step in script {
+                match *step {
+                    "fail" => {
+                        h.connect_fail(std::io::ErrorKind::ConnectionRefused);
+                    }
+                    "ok" => {
+                        h.connect_ok();
+                    }
+                    "eof" => {
+                        if let Some(io) = h.io() {
+                            io.eof();
+                        }
+                    }
+                    _ => {
+                        if let Some(io) = h.io() {
+                            io.read_error(std::io::ErrorKind::ConnectionReset);
+                        }
+                    }
+                }
+                let _ = h.settle();
+            }
+            h.take_states().into_iter().map(|(s, _)| format!("{s:?}")).collect()
+        });
+        st.evaluations += 1;
+        st.traces += 1;
+        st.transitions += script.len() as u64;
+        st.class("zero-delay-retry");
+        st.observe(&states);
+        let name = |s: &String| s.split('(').next().unwrap_or("").to_string();
+        for w in states.windows(2) {
+            let (a, b) = (name(&w[0]), name(&w[1]));
+            if b == "Connecting" && (a == "Connecting" || a == "Connected") {
+                st.violation(Violation {
+                    signature: "no-wait-state:zero-delay".into(),
+                    summary: format!("retry strategy with delay 0, script {script:?}: the listener heard {a} and then Connecting with no wait state in between: {states:?}"),
+                    replay: json!({"kind": "c13-zero-delay", "script": script}),
+                });
+                break;
+            }
+        }
+        let attempts = states.iter().filter(|s| name(s) == "Connecting").count();
+        if attempts < script.len().min(2) {
+            st.violation(Violation { signature: "MACHINERY:zero-delay-script".into(), summary: format!("script {script:?} produced only {attempts} attempts: {states:?}"), replay: json!({}) });
+        }
+    })
 }
 
 pub fn check_c13(tier: &str) -> i32 {
